@@ -182,7 +182,10 @@ func cases() []cse {
 // Marshal calls, including calls that failed half-way through a nested "properties" object.
 // Every sequence of <= 3 operations on one goroutine; each successful operation must give its
 // initial result.
-func marshalHistories(r *ev.Run) {
+func marshalHistories(r *ev.Run) { MarshalHistories(r, "") }
+
+// MarshalHistories is shared with C05 (prefix distinguishes the case keys).
+func MarshalHistories(r *ev.Run, prefix string) {
 	p := func(order []string, names ...string) *jsonschema.Schema {
 		m := map[string]*jsonschema.Schema{}
 		for _, n := range names {
@@ -202,6 +205,11 @@ func marshalHistories(r *ev.Run) {
 			return &jsonschema.Schema{Properties: map[string]*jsonschema.Schema{"a": {}, "c": {}, "zz": {Items: p([]string{"q", "q"}, "q")}}, PropertyOrder: []string{"c"}}
 		}},
 		{"fails: duplicate at the root", func() *jsonschema.Schema { return p([]string{"a", "a"}, "a", "b") }},
+		{"fails: a listed property is written, a later one cannot be marshalled (type and types)", func() *jsonschema.Schema {
+			s := p([]string{"a", "n"}, "a", "b", "n")
+			s.Properties["n"] = &jsonschema.Schema{Type: "integer", Types: []string{"string"}}
+			return s
+		}},
 		{"ok: three unlisted properties", func() *jsonschema.Schema { return p(nil, "a", "b", "c") }},
 		{"ok: one listed, two unlisted", func() *jsonschema.Schema { return p([]string{"b"}, "a", "b", "n") }},
 		{"ok: nested, order lists an absent name", func() *jsonschema.Schema {
@@ -228,7 +236,7 @@ func marshalHistories(r *ev.Run) {
 			for i, k := range seq {
 				names[i] = ops[k].name
 			}
-			key := "Marshal history " + strings.Join(names, " ; ")
+			key := prefix + "Marshal history " + strings.Join(names, " ; ")
 			if r.OnlyKey == "" || r.OnlyKey == key {
 				for step, k := range seq {
 					if got := run(ops[k]); got != initial[k] {
@@ -266,7 +274,7 @@ func mkProps(ps []string) map[string]*jsonschema.Schema {
 
 func Run(r *ev.Run) {
 	cs := cases()
-	r.Rule("property name sets of size<=4 over {a,b,c,d,é,\"\"} x every PropertyOrder that is a permutation of a subset, such a list with names absent from properties inserted at every position, or a list with one duplicate (present or absent name); plus every name set of size<=3 over 13 names whose JSON encoding sorts differently from the name (space, !, <, &, control characters, U+2028, quote, backslash, case) with no / empty / single-name orders; each at the root, nested under properties / items / $defs / allOf / anyOf / oneOf / not / array-form items / dependencies (schema form beside a string form) / patternProperties / dependentSchemas+then with an own order on both levels, and marshalled as a value inside map[string]Schema; duplicates also with nil and empty Properties. Oracle R5: key order read from the token stream = listed names that exist, in list order, then the rest ascending; a duplicate anywhere in the tree makes Marshal fail. Histories: every sequence of <=3 Marshal calls over 7 schemas (3 of which fail, two of them half-way through a nested properties object) gives each call its initial result. Determinism: 20 marshals of every value (and of every schema For returns for the G-type catalogue, also around overridden embedded structs, 20 x For+Marshal) give identical bytes; the caller's PropertyOrder slice is unchanged afterwards. Non-trivial = every case (distinct by construction)")
+	r.Rule("property name sets of size<=4 over {a,b,c,d,é,\"\"} x every PropertyOrder that is a permutation of a subset, such a list with names absent from properties inserted at every position, or a list with one duplicate (present or absent name); plus every name set of size<=3 over 13 names whose JSON encoding sorts differently from the name (space, !, <, &, control characters, U+2028, quote, backslash, case) with no / empty / single-name orders; each at the root, nested under properties / items / $defs / allOf / anyOf / oneOf / not / array-form items / dependencies (schema form beside a string form) / patternProperties / dependentSchemas+then with an own order on both levels, and marshalled as a value inside map[string]Schema; duplicates also with nil and empty Properties. Oracle R5: key order read from the token stream = listed names that exist, in list order, then the rest ascending; a duplicate anywhere in the tree makes Marshal fail. Histories: every sequence of <=3 Marshal calls over 8 schemas (4 of which fail, two of them half-way through a nested properties object) gives each call its initial result. Determinism: 20 marshals of every value (and of every schema For returns for the G-type catalogue, also around overridden embedded structs, 20 x For+Marshal) give identical bytes; the caller's PropertyOrder slice is unchanged afterwards. Non-trivial = every case (distinct by construction)")
 	r.Assume("R5 is the documented rule of Schema.PropertyOrder", "map-iteration orders are explored in the instrumented build (C19 env part); here repetition only confirms")
 	r.Set("cases", len(cs))
 	type nest struct {
